@@ -55,7 +55,7 @@ func genYcfg(r *rng.R, thorough bool) *ycfg {
 			s.argon = true
 			s.time = uint32(1 + r.Intn(3))
 			s.memory = uint32(r.Pick(8, 9, 16, 64, 100, 1024))
-			s.threads = uint8(1 + r.Intn(4))
+			s.threads = uint8(r.Pick(1, 2, 3, 4, 4, 17, 32, 255))
 			s.length = uint32(r.Pick(4, 16, 20, 32, 64, 3100))
 		} else {
 			s.cost = uint(1 + r.Intn(6))
@@ -122,7 +122,7 @@ func observeArgon(s *pset, salt, pw, digest []byte) string {
 					if t < 1 || th < 1 || l < 1 {
 						continue
 					}
-					if m > 1<<20 {
+					if m > 1<<16 {
 						continue
 					}
 					if bytes.Equal(argon2.IDKey(pw, salt, t, m, th, l), digest) {
